@@ -79,33 +79,35 @@ inline Config parseConfig(const uint8_t* prog) {
 // operand-form classes (coverage evidence)
 enum Form { FORM_PLAIN = 0, FORM_SRC_EQ_DST = 1, FORM_L1 = 2, FORM_L2 = 3, FORM_L3 = 4 };
 
+// decodes the 8-byte instruction word `w` at position i; lastMod is the last-writer table (4.x "modified" rules of 5.4.2)
+inline Decoded decodeOne(const uint8_t* w, int i, int* lastMod) {
+	const OpTable& T = opTable();
+	Decoded d; d.op = T.op[w[0]]; d.imm32 = rd32(w + 4); d.mod = w[3]; d.target = -1; d.nop = false; d.form = FORM_PLAIN;
+	const int dstR = w[1] & 7, srcR = w[2] & 7;
+	d.dst = dstR; d.src = srcR; d.srcIsDst = dstR == srcR;
+	switch (d.op) {
+	case IADD_RS: case ISUB_R: case IMUL_R: case IMULH_R: case ISMULH_R: case IXOR_R: case IROR_R: case IROL_R: case INEG_R:
+		lastMod[dstR] = i; if (d.srcIsDst) d.form = FORM_SRC_EQ_DST; break;
+	case IADD_M: case ISUB_M: case IMUL_M: case IMULH_M: case ISMULH_M: case IXOR_M:
+		lastMod[dstR] = i; d.form = d.srcIsDst ? FORM_L3 : ((d.mod & 3) ? FORM_L1 : FORM_L2); break;
+	case IMUL_RCP: if (zeroOrPow2(d.imm32)) d.nop = true; else lastMod[dstR] = i; break;
+	case ISWAP_R: if (d.srcIsDst) { d.nop = true; d.form = FORM_SRC_EQ_DST; } else { lastMod[dstR] = i; lastMod[srcR] = i; } break;
+	case FSWAP_R: break; // dst in F+E (0..7)
+	case FADD_R: case FSUB_R: case FMUL_R: d.dst = dstR & 3; d.src = srcR & 3; break;
+	case FADD_M: case FSUB_M: case FDIV_M: d.dst = dstR & 3; d.form = (d.mod & 3) ? FORM_L1 : FORM_L2; break;
+	case FSCAL_R: case FSQRT_R: d.dst = dstR & 3; break;
+	case CBRANCH: d.target = lastMod[dstR] + 1; for (int k = 0; k < 8; ++k) lastMod[k] = i; break;
+	case CFROUND: break;
+	case ISTORE: d.form = ((d.mod >> 4) >= 14) ? FORM_L3 : ((d.mod & 3) ? FORM_L1 : FORM_L2); break;
+	}
+	return d;
+}
+
 inline void decodeProgram(const uint8_t* prog, bool v2, std::vector<Decoded>& out) {
 	const int n = programSize(v2);
 	out.resize(n);
 	int lastMod[8]; for (int& x : lastMod) x = -1;
-	const OpTable& T = opTable();
-	for (int i = 0; i < n; ++i) {
-		const uint8_t* w = prog + 128 + 8 * i;
-		Decoded d; d.op = T.op[w[0]]; d.imm32 = rd32(w + 4); d.mod = w[3]; d.target = -1; d.nop = false; d.form = FORM_PLAIN;
-		const int dstR = w[1] & 7, srcR = w[2] & 7;
-		d.dst = dstR; d.src = srcR; d.srcIsDst = dstR == srcR;
-		switch (d.op) {
-		case IADD_RS: case ISUB_R: case IMUL_R: case IMULH_R: case ISMULH_R: case IXOR_R: case IROR_R: case IROL_R: case INEG_R:
-			lastMod[dstR] = i; if (d.srcIsDst) d.form = FORM_SRC_EQ_DST; break;
-		case IADD_M: case ISUB_M: case IMUL_M: case IMULH_M: case ISMULH_M: case IXOR_M:
-			lastMod[dstR] = i; d.form = d.srcIsDst ? FORM_L3 : ((d.mod & 3) ? FORM_L1 : FORM_L2); break;
-		case IMUL_RCP: if (zeroOrPow2(d.imm32)) d.nop = true; else lastMod[dstR] = i; break;
-		case ISWAP_R: if (d.srcIsDst) d.nop = true; else { lastMod[dstR] = i; lastMod[srcR] = i; } break;
-		case FSWAP_R: break; // dst in F+E (0..7)
-		case FADD_R: case FSUB_R: case FMUL_R: d.dst = dstR & 3; d.src = srcR & 3; break;
-		case FADD_M: case FSUB_M: case FDIV_M: d.dst = dstR & 3; d.form = (d.mod & 3) ? FORM_L1 : FORM_L2; break;
-		case FSCAL_R: case FSQRT_R: d.dst = dstR & 3; break;
-		case CBRANCH: d.target = lastMod[dstR] + 1; for (int& x : lastMod) x = i; break;
-		case CFROUND: break;
-		case ISTORE: d.form = ((d.mod >> 4) >= 14) ? FORM_L3 : ((d.mod & 3) ? FORM_L1 : FORM_L2); break;
-		}
-		out[i] = d;
-	}
+	for (int i = 0; i < n; ++i) out[i] = decodeOne(prog + 128 + 8 * i, i, lastMod);
 }
 
 struct Vm {
